@@ -1,17 +1,18 @@
 #!/bin/sh
 # Sensitivity regression: run every seeded change under /verif/seeded through the quick check that is recorded as
 # catching it (meta.json: after_strengthening.check, else breaks_property) and write seeded/RESULTS.tsv.
-#   tools/seeded_all.sh [budget-seconds] [id-prefix]
+#   tools/seeded_all.sh [budget-seconds] [id-prefix[,id-prefix...]]      (SEEDED_OUT=<file>: write there instead)
 # Each run points the check at a scratch worktree of /repo with the patch applied (tools/seeded.sh run); /repo,
 # /verif/evidence and /verif/replays are not touched. A change that is not reported is listed as MISSED; the
 # script exits 1 if any is.
 cd "$(dirname "$0")/.." || exit 3
 B=${1:-40}; PFX=${2:-}
-OUT=seeded/RESULTS.tsv
+OUT=${SEEDED_OUT:-seeded/RESULTS.tsv}
 TMP=$(mktemp /var/tmp/verif-seeded-all-XXXXXX)
 printf 'id\twave\tproperty\tcheck\tbudget_s\tresult\tsignature\n' > "$TMP"
 miss=0
-for d in $(ls -d seeded/${PFX}*/ | sort -V); do
+DIRS=$(for x in $(echo "${PFX:-C}" | tr ',' ' '); do ls -d seeded/${x}*/; done | sort -V)
+for d in $DIRS; do
   id=$(basename "$d")
   [ -f "$d/meta.json" ] || continue
   set -- $(python3 - "$d/meta.json" <<'EOF'
@@ -31,10 +32,10 @@ EOF
     continue
   fi
   log=$(SEEDED_LINES=80 tools/seeded.sh run "$d" "$chk" "$B" 2>&1)
-  if echo "$log" | grep -q '^VIOLATION'; then
-    res=CAUGHT; sig=$(echo "$log" | grep -m1 '^violation' | cut -d' ' -f2 | tr -d ':')
+  if echo "$log" | grep -a -q '^VIOLATION'; then
+    res=CAUGHT; sig=$(echo "$log" | grep -a -m1 '^violation' | cut -d' ' -f2 | tr -d ':')
   else
-    res=MISSED; sig=$(echo "$log" | grep -m1 -E 'VERIF-FAULT|HARNESS' | cut -c1-80); miss=$((miss+1))
+    res=MISSED; sig=$(echo "$log" | grep -a -m1 -E 'VERIF-FAULT|HARNESS' | cut -c1-80); miss=$((miss+1))
   fi
   printf '%s\t%s\t%s\t%s\t%s\t%s\t%s\n' "$id" "$wave" "$prop" "$chk" "$B" "$res" "$sig" | tee -a "$TMP"
 done
